@@ -34,7 +34,7 @@ def run(rep, tier, seed):
     rep.sample(scs[0][:12] if scs else events[:5])
     rep.sample([e for e in events if e["ev"] == "object"][:3])
     # store options from the config file (uncompressed: true for an absolute path or glob) against every spelling of the store path
-    cli_common.run(rep, vlib.workdir("C20-cli"), seed, "config", tier == "thorough")
+    cli_common.run(rep, vlib.workdir("C20-cli"), seed, "config,ssh", tier == "thorough")
     rep.rule = ("case = history of 25-40 steps by a compressed and an uncompressed client on one directory (store/has/get through LocalStore or HTTP handler+client, "
                 "remove, prune with a random keep-set, verify +- repair, damage of one client's file) over 3 chunk contents drawn from {1 byte, all-zero up to 64 KiB, "
                 "incompressible random, text}; plus cross-implementation reads (15 contents each way) and fixture stores; distinct = different history; non-trivial = > 4 steps")
